@@ -32,7 +32,7 @@ Inductive hval :=
 | HEntry (k v : hval)              (* *HashEntry{key, value}: never assigned after WrapHashEntry *)
 | HNilv.                           (* a Go nil element (the zero value of a cell) *)
 
-Definition hstore := store hval.
+Notation hstore := (store hval).
 
 Definition cv (c : option hval) : hval := match c with Some x => x | None => HNilv end.
 Definition ent (e : hval) : hval * hval := match e with HEntry k v => (k, v) | _ => (HNilv, HNilv) end.
@@ -82,27 +82,32 @@ Section Exec.
     | Loop c => let '(h0, s0) := halloc h [] c in append_each h0 s0 vs
     end.
 
+  (* the items of a plan are executed from left to right *)
+  Section ExecAll.
+    Variable f : hstore -> plan -> hstore * hval.
+    Fixpoint exec_all (h : hstore) (ps : list plan) : hstore * list hval :=
+      match ps with
+      | [] => (h, [])
+      | p :: t => let '(h1, v) := f h p in
+                  let '(h2, vs) := exec_all h1 t in (h2, v :: vs)
+      end.
+  End ExecAll.
+
   Fixpoint exec (h : hstore) (p : plan) : hstore * hval :=
-    let exec_list :=
-        (fix exec_list (h : hstore) (ps : list plan) : hstore * list hval :=
-           match ps with
-           | [] => (h, [])
-           | p :: t => let '(h1, v) := exec h p in
-                       let '(h2, vs) := exec_list h1 t in (h2, v :: vs)
-           end) in
     match p with
     | Share v => (h, v)
     | MkEntry k v => let '(h1, kv) := exec h k in
                      let '(h2, vv) := exec h1 v in (h2, HEntry kv vv)
     | New hash hw items =>
-        let '(h1, vs) := exec_list h items in
+        let '(h1, vs) := exec_all exec h items in
         let '(h2, s) := build h1 hw vs in
         (h2, if hash then HHash s else HArr s)
     | AppendTo s items =>
-        let '(h1, vs) := exec_list h items in
+        let '(h1, vs) := exec_all exec h items in
         let '(h2, s') := happend grow h1 s vs in
         (h2, HArr s')
     end.
+  Definition exec_list : hstore -> list plan -> hstore * list hval := exec_all exec.
 End Exec.
 
 (* ---------------------------------------------------------------------------------------------- *)
